@@ -1,6 +1,6 @@
 (* Islamic: the arithmetic (tabular) Islamic calendar, civil epoch 16 July 622 (Julian),
    leap years 2, 5, 7, 10, 13, 16, 18, 21, 24, 26, 29 of each 30-year cycle. *)
-From Coq Require Import ZArith List Bool Lia.
+From Coq Require Import ZArith List Bool Lia ZifyBool.
 From Spec Require Import CalSpec.
 Import ListNotations.
 Open Scope Z_scope.
@@ -26,3 +26,163 @@ Example leap_years_of_cycle :
   filter islamic_leap [1;2;3;4;5;6;7;8;9;10;11;12;13;14;15;16;17;18;19;20;21;22;23;24;25;26;27;28;29;30]
   = [2;5;7;10;13;16;18;21;24;26;29].
 Proof. reflexivity. Qed.
+
+(* ------------------------------------------------------------------------ *)
+(* Theorems about the arithmetic Islamic calendar, for ALL years h >= 1      *)
+(* ------------------------------------------------------------------------ *)
+
+Definition islamic_next (h m d : Z) : Z * Z * Z :=
+  if d <? islamic_mlen h m then (h, m, d + 1)
+  else if m <? 12 then (h, m + 1, 1) else (h + 1, 1, 1).
+Definition islamic_lt (h m d h' m' d' : Z) : Prop :=
+  h < h' \/ (h = h' /\ (m < m' \/ (m = m' /\ d < d'))).
+
+Ltac imonth_cases m :=
+  let H := fresh "Hm" in
+  assert (H : m = 1 \/ m = 2 \/ m = 3 \/ m = 4 \/ m = 5 \/ m = 6 \/ m = 7 \/ m = 8
+              \/ m = 9 \/ m = 10 \/ m = 11 \/ m = 12) by lia;
+  repeat (destruct H as [H | H]); subst m.
+
+(* days before month m inside a year *)
+Definition islamic_ms (m : Z) : Z := 29 * (m - 1) + m / 2.
+Lemma islamic_jdn_eq h m d : islamic_jdn h m d = islamic_jdn h 1 1 + islamic_ms m + d - 1.
+Proof. unfold islamic_jdn, islamic_ms. change (1 / 2) with 0. ring. Qed.
+
+Lemma islamic_valid_iff h m d :
+  islamic_valid h m d = true <-> (1 <= h /\ 1 <= m <= 12 /\ 1 <= d <= islamic_mlen h m).
+Proof. unfold islamic_valid. lia. Qed.
+
+(* months have 29 or 30 days: odd months 30, even months 29, the twelfth 30 in leap years *)
+Lemma islamic_mlen_29_30 h m : islamic_mlen h m = 29 \/ islamic_mlen h m = 30.
+Proof.
+  unfold islamic_mlen. destruct (Z.odd m); [right; reflexivity|].
+  destruct ((m =? 12) && islamic_leap h); [right|left]; reflexivity.
+Qed.
+
+Lemma islamic_ms_succ h m : 1 <= m < 12 -> islamic_ms (m + 1) = islamic_ms m + islamic_mlen h m.
+Proof. intros H. imonth_cases m; try lia; reflexivity. Qed.
+
+Lemma islamic_ms_12 h : islamic_ms 12 + islamic_mlen h 12 = islamic_ylen h.
+Proof. unfold islamic_mlen, islamic_ylen. simpl. destruct (islamic_leap h); reflexivity. Qed.
+
+(* years have 354 or 355 days, 355 exactly in the leap years of the 30-year cycle *)
+Theorem islamic_year_length h : islamic_jdn (h + 1) 1 1 - islamic_jdn h 1 1 = islamic_ylen h.
+Proof.
+  unfold islamic_jdn, islamic_ylen, islamic_leap.
+  destruct ((11 * h + 14) mod 30 <? 11) eqn:E; Z.div_mod_to_equations; lia.
+Qed.
+Corollary islamic_ylen_354_355 h : islamic_ylen h = 354 \/ islamic_ylen h = 355.
+Proof. unfold islamic_ylen. destruct (islamic_leap h); [right|left]; reflexivity. Qed.
+
+(* the length of a month is the distance between the first days of consecutive months *)
+Theorem islamic_month_length h m : 1 <= m <= 12 ->
+  (let '(h', m', d') := islamic_next h m (islamic_mlen h m) in islamic_jdn h' m' d')
+  - islamic_jdn h m 1 = islamic_mlen h m.
+Proof.
+  intros Hm. unfold islamic_next. rewrite Z.ltb_irrefl.
+  destruct (m <? 12) eqn:E.
+  - rewrite (islamic_jdn_eq h (m + 1)), (islamic_jdn_eq h m), (islamic_ms_succ h) by lia. lia.
+  - assert (m = 12) by lia. subst m.
+    pose proof (islamic_year_length h). pose proof (islamic_ms_12 h).
+    rewrite (islamic_jdn_eq h 12). lia.
+Qed.
+
+Theorem islamic_next_valid h m d : islamic_valid h m d = true ->
+  let '(h', m', d') := islamic_next h m d in islamic_valid h' m' d' = true.
+Proof.
+  intros V. apply islamic_valid_iff in V. destruct V as (Hh & Hm & Hd).
+  unfold islamic_next. destruct (d <? islamic_mlen h m) eqn:E1.
+  - apply islamic_valid_iff. lia.
+  - destruct (m <? 12) eqn:E2; apply islamic_valid_iff.
+    + pose proof (islamic_mlen_29_30 h (m + 1)). lia.
+    + pose proof (islamic_mlen_29_30 (h + 1) 1). lia.
+Qed.
+
+(* consecutive Islamic dates fall on consecutive days *)
+Theorem islamic_jdn_next h m d : islamic_valid h m d = true ->
+  let '(h', m', d') := islamic_next h m d in islamic_jdn h' m' d' = islamic_jdn h m d + 1.
+Proof.
+  intros V. apply islamic_valid_iff in V. destruct V as (Hh & Hm & Hd).
+  unfold islamic_next. destruct (d <? islamic_mlen h m) eqn:E1.
+  - rewrite !(islamic_jdn_eq h m). lia.
+  - assert (d = islamic_mlen h m) by lia. subst d.
+    pose proof (islamic_month_length h m Hm) as L. unfold islamic_next in L.
+    rewrite Z.ltb_irrefl in L.
+    rewrite (islamic_jdn_eq h m (islamic_mlen h m)), (islamic_jdn_eq h m 1) in *.
+    destruct (m <? 12); lia.
+Qed.
+
+Lemma islamic_ms_mono h m m' : 1 <= m -> m < m' -> m' <= 12 ->
+  islamic_ms m + islamic_mlen h m <= islamic_ms m'.
+Proof.
+  intros H1 H2 H3. unfold islamic_mlen.
+  imonth_cases m; imonth_cases m'; try (exfalso; lia);
+    destruct (islamic_leap h); vm_compute; discriminate.
+Qed.
+
+Lemma islamic_year_bounds h m d : islamic_valid h m d = true ->
+  islamic_jdn h 1 1 <= islamic_jdn h m d < islamic_jdn (h + 1) 1 1.
+Proof.
+  intros V. apply islamic_valid_iff in V. destruct V as (Hh & Hm & Hd).
+  pose proof (islamic_year_length h) as Y. pose proof (islamic_ms_12 h) as T.
+  rewrite (islamic_jdn_eq h m d).
+  assert (0 <= islamic_ms m) by (unfold islamic_ms; Z.div_mod_to_equations; lia).
+  destruct (Z.eq_dec m 12) as [->|Hne]; [lia|].
+  pose proof (islamic_ms_mono h m 12 ltac:(lia) ltac:(lia) ltac:(lia)).
+  pose proof (islamic_mlen_29_30 h 12). lia.
+Qed.
+
+Lemma islamic_newyear_mono h h' : h <= h' ->
+  islamic_jdn h 1 1 + 354 * (h' - h) <= islamic_jdn h' 1 1.
+Proof. intros H. unfold islamic_jdn. Z.div_mod_to_equations. lia. Qed.
+
+Theorem islamic_jdn_mono h m d h' m' d' :
+  islamic_valid h m d = true -> islamic_valid h' m' d' = true ->
+  islamic_lt h m d h' m' d' -> islamic_jdn h m d < islamic_jdn h' m' d'.
+Proof.
+  intros V V' [Hlt | [<- Hlt]].
+  - pose proof (islamic_year_bounds _ _ _ V). pose proof (islamic_year_bounds _ _ _ V').
+    pose proof (islamic_newyear_mono (h + 1) h' ltac:(lia)). lia.
+  - apply islamic_valid_iff in V. destruct V as (Hh & Hm & Hd).
+    apply islamic_valid_iff in V'. destruct V' as (_ & Hm' & Hd').
+    rewrite (islamic_jdn_eq h m d), (islamic_jdn_eq h m' d').
+    destruct Hlt as [Hlt | [-> Hlt]]; [|lia].
+    pose proof (islamic_ms_mono h m m' ltac:(lia) Hlt ltac:(lia)). lia.
+Qed.
+
+(* the day count is injective on valid Islamic dates ... *)
+Theorem islamic_jdn_inj h m d h' m' d' :
+  islamic_valid h m d = true -> islamic_valid h' m' d' = true ->
+  islamic_jdn h m d = islamic_jdn h' m' d' -> (h, m, d) = (h', m', d').
+Proof.
+  intros V V' E.
+  assert (T : islamic_lt h m d h' m' d' \/ islamic_lt h' m' d' h m d
+              \/ (h = h' /\ m = m' /\ d = d')) by (unfold islamic_lt; lia).
+  destruct T as [T | [T | (-> & -> & ->)]].
+  - pose proof (islamic_jdn_mono _ _ _ _ _ _ V V' T). lia.
+  - pose proof (islamic_jdn_mono _ _ _ _ _ _ V' V T). lia.
+  - reflexivity.
+Qed.
+
+(* ... and onto the days from the epoch on: a bijection between valid dates and days *)
+Theorem islamic_jdn_surj n : islamic_epoch <= n ->
+  exists h m d, islamic_valid h m d = true /\ islamic_jdn h m d = n.
+Proof.
+  intros Hn. replace n with (islamic_epoch + (n - islamic_epoch)) by lia.
+  assert (0 <= n - islamic_epoch) as Hk by lia. revert Hk. generalize (n - islamic_epoch) as k.
+  intros k Hk. pattern k. apply natlike_ind; [| |exact Hk].
+  - exists 1, 1, 1. split; reflexivity.
+  - intros x Hx (h & m & d & V & E).
+    pose proof (islamic_next_valid h m d V) as V'. pose proof (islamic_jdn_next h m d V) as E'.
+    destruct (islamic_next h m d) as [[h' m'] d'].
+    exists h', m', d'. split; [exact V'|lia].
+Qed.
+
+(* a date of year h lies below the first day of every later year *)
+Lemma islamic_year_of_day h m d H : islamic_valid h m d = true ->
+  islamic_jdn h m d < islamic_jdn (H + 1) 1 1 -> h <= H.
+Proof.
+  intros V L. destruct (Z_le_gt_dec h H) as [?|G]; [assumption|exfalso].
+  pose proof (islamic_year_bounds _ _ _ V). pose proof (islamic_newyear_mono (H + 1) h ltac:(lia)). lia.
+Qed.
+Print Assumptions islamic_jdn_surj.
